@@ -55,6 +55,11 @@ func (r *runner) otherSorts(w *World, k Kons, sc *vk.Scenario) {
 				sc.Executions++
 				sc.Transitions++
 				f, key, nontrivial := w.checkOther2(k, s, limit, pv, full)
+				if m := w.takeMut(); m != nil {
+					mf := m.failure(fmt.Sprintf("constraint %s sort %s limit %d around %s", k.Name, sortNames[s], limit, pv.Name))
+					r.report(sc, Case{Spec: w.Spec, Kind: "around-other", Kons: k.Name, Sort: sortNames[s], Limit: limit, Pivot: pv.Name}, mf, false)
+					sc.Outcome("FAIL|" + mf.Sig)
+				}
 				if f != nil {
 					r.report(sc, Case{Spec: w.Spec, Kind: "around-other", Kons: k.Name, Sort: sortNames[s], Limit: limit, Pivot: pv.Name}, f, orderOpen)
 					sc.Outcome("FAIL|" + f.Sig)
